@@ -47,6 +47,7 @@ def check(run):
     R.rule('C03.rsv1gate', 'send_compressed is called only under `compress and self.state.compression`', 2)
     R.rule('C03.close', 'close payload = pack("!H", status) followed by the UTF-8 reason bytes', 3)
     once(R)
+    maskonce(R)
     argcheck(R)
     ctrl125(R)
     flags(R)
@@ -91,6 +92,67 @@ def once(R):
         not any(any(s2 in g.succ_reach(s) for s2 in snodes) for s in snodes)
     R.ob('C03.once', 'send_json: exactly one send_text', ok, 'send_json does not call send_text exactly once',
          func=q, node=R.func(q).node, construct='send_json -> send_text')
+
+
+MASKING = ('frame.Frame.to_bytes', 'frame.Frame.build', 'mask.mask_payload')
+
+
+def _masking_funcs(R):
+    """Functions (and properties) that - directly or through callees / property reads - serialise a frame, i.e. mask
+    its payload buffer in place."""
+    cache = getattr(R, '_masking', None)
+    if cache is not None:
+        return cache
+    mk = set(MASKING)
+    changed = True
+    while changed:
+        changed = False
+        for cx in R.types.ctxs.values():
+            f = cx.func
+            if f.qual in mk or (f.cls is not None and cx.recv != f.cls.qual):
+                continue
+            hit = False
+            for n in own_nodes(f.node):
+                if isinstance(n, ast.Call):
+                    if any(t.kind == 'func' and t.qual in mk for t in R.types.call_targets(n, cx)):
+                        hit = True
+                elif isinstance(n, ast.Attribute) and isinstance(n.ctx, ast.Load):
+                    for t in R.types.expr(n.value, cx):
+                        if isinstance(t, str) and t.startswith('inst:'):
+                            pf = R.prog.find_method(t[5:], n.attr)
+                            if pf is not None and pf.is_property and pf.qual in mk:
+                                hit = True
+            if hit:
+                mk.add(f.qual)
+                changed = True
+    R._masking = mk
+    return mk
+
+
+def maskonce(R):
+    """In session.send / send_compressed the frame is serialised (hence masked in place) exactly once."""
+    mk = _masking_funcs(R)
+    for q in (SEND, SENDC):
+        g = R.cfg(q)
+        ops = []
+        for n in g.live_nodes():
+            for c in n.calls:
+                if any(t.kind == 'func' and t.qual in mk for t in R.types.call_targets(c, g.ctx)):
+                    ops.append((n, U(c)))
+            for e in (n.exprs or []):
+                for x in walk_no_nested(e):
+                    if isinstance(x, ast.Attribute) and isinstance(x.ctx, ast.Load):
+                        for t in R.types.expr(x.value, g.ctx):
+                            if isinstance(t, str) and t.startswith('inst:'):
+                                pf = R.prog.find_method(t[5:], x.attr)
+                                if pf is not None and pf.is_property and pf.qual in mk:
+                                    ops.append((n, U(x)))
+        nodes = [n for (n, _) in ops]
+        twice = any(n2 in g.succ_reach(n1) for n1 in nodes for n2 in nodes) or len(ops) != len(set(nodes))
+        R.ob('C03.once', '%s: the frame is serialised exactly once' % q.rsplit('.', 1)[1], len(ops) >= 1 and not twice,
+             'the frame is serialised %s: Frame.build masks the payload buffer in place, so a second serialisation '
+             '(e.g. to log its size) masks it again with another key and the wire payload no longer unmasks to the '
+             'caller\'s data' % [t for (_, t) in ops], func=q, node=None, construct='%s serialisations %s' % (q, sorted(t for (_, t) in ops)))
 
 
 # -------------------------------------------------------------------------------------------- argcheck
